@@ -1,6 +1,6 @@
 (* C03: blocks nested to any depth restore the state at their entry. *)
 From Coq Require Import ZArith QArith Qcanon List Bool Lia FunctionalExtensionality.
-From Cobra.Core Require Import Model Inv Preserve RestoreBase RestoreOps RestoreStruct.
+From Cobra.Core Require Import Model Inv Preserve RestoreBase RestoreOps RestoreStruct RestoreSt.
 Import ListNotations.
 Open Scope Z_scope.
 
@@ -11,11 +11,12 @@ Definition ctx_ok (s : st) (o : op) : Prop :=
   | SetDir _ | SetObj _ | SetObjCoef _ _ => True
   | AddMet _ | RemoveRxn _ _ => True
   | AddRxn r => In r (rids s)
+  | AddSt r l _ | SubSt r l _ => rin s r = true /\ (forall m, In m (map fst l) -> In m (mids s))
   | _ => False
   end.
 
 Lemma ctx_ok_op_ok s o : ctx_ok s o -> op_ok s o.
-Proof. destruct o; cbn; intros H; try contradiction; split; cbn; auto. Qed.
+Proof. destruct o; cbn; intros H; try contradiction; split; cbn; auto; tauto. Qed.
 
 Lemma step_undone s o : Inv s -> V s -> ctx_ok s o -> undone s (fst (step s o)).
 Proof.
@@ -27,12 +28,21 @@ Proof.
   - apply set_lb_undone; assumption.
   - apply set_ub_undone; assumption.
   - apply set_bounds_undone; assumption.
+  - apply add_st_undone; tauto.
+  - apply add_st_undone; tauto.
   - apply set_obj_undone; assumption.
   - destruct (rin s r); [apply set_obj_undone; assumption|apply undone_refl].
   - cbn [fst]. apply set_dir_undone.
 Qed.
 
 (* the structural operations do not touch any bound *)
+Lemma add_st_bounds r l c v s : lb (fst (add_st r l c v s)) = lb s /\ ub (fst (add_st r l c v s)) = ub s.
+Proof.
+  unfold add_st.
+  match goal with |- lb (fst (if ?cnd then _ else _)) = _ /\ _ => destruct cnd end; [destruct c|]; cbn [fst];
+    rewrite ?lb_record, ?ub_record; (destruct (rin s r); [unfold model_add_mets; cbn; rewrite lb_record_all, ub_record_all|];
+    split; reflexivity).
+Qed.
 Lemma add_rxn_bounds r s : lb (add_rxn r s) = lb s /\ ub (add_rxn r s) = ub s.
 Proof.
   unfold add_rxn. destruct (rin s r); [split; reflexivity|]. rewrite lb_record_all, ub_record_all.
@@ -53,6 +63,8 @@ Proof.
   - apply set_lb_V; assumption.
   - apply set_ub_V; assumption.
   - apply set_bounds_V; assumption.
+  - intros r0. destruct (add_st_bounds r l combine true s) as [X Y]. rewrite X, Y. apply HV.
+  - intros r0. destruct (add_st_bounds r (neg_list l) combine true s) as [X Y]. rewrite X, Y. apply HV.
   - apply set_obj_V; assumption.
   - destruct (rin s r); [apply set_obj_V; assumption|exact HV].
   - cbn [fst]. unfold set_dir. destruct (_ && _); [exact HV|]. intros r0. cbn. destruct (in_ctx s); recs; apply HV.
